@@ -90,6 +90,8 @@ class EagerContractTensors(Contract):
                         ok = ok and len(szs) <= 1
                     if not ok or (tier == "quick" and ((n == 2 and sum(len(s) for s in shapes) > 3) or (n == 3 and sum(len(s) for s in shapes) > 2))):
                         continue
+                    if tier != "quick" and n == 3 and sum(len(s) for s in shapes) > 4:
+                        continue
                     used = sorted(set("".join(ins)))
                     for r in range(0, len(used) + 1):
                         for red in itertools.combinations(used, r):
